@@ -914,6 +914,10 @@ func newMessage(gen *Plugin, f *File, parent *Message, desc protoreflect.Message
 		"ExtensionRangeArray": true,
 		"ExtensionMap":        true,
 		"Descriptor":          true,
+		// Generated code with a field named ProtoReflect never compiled (the
+		// field collides with the method of every generated message), so
+		// reserving the name changes no working code.
+		"ProtoReflect": true,
 	}
 	makeNameUnique := func(name string, hasGetter bool) string {
 		for usedNames[name] || (hasGetter && usedNames["Get"+name]) {
